@@ -82,7 +82,8 @@ def run_case(ctx, case):
             elif not l["start_boundary"] or not l["end_boundary"]:
                 problem = "not_on_char_boundary"
             if problem:
-                ctx.violation("span:E%d:label%d:%s" % (d["code"], li, problem),
+                family = "lexer_error" if 200 <= d["code"] < 300 else "E%d" % d["code"]
+                ctx.violation("span:%s:%s" % (family, problem),
                               {"src": src, "diagnostic": d["msg"], "label": l, "source_len": n})
                 return
     for d in diags:
